@@ -298,6 +298,26 @@ func c18(x *mon.Ctx) {
 			p = goodPolicy()
 			p.AnyMrTd = [][]byte{variant(r, "random-differs", sq.MrTd)}
 			add(base, world.LBase, "policy-mismatch", "any-mr-td", p, true, false)
+			// the TEE TCB SVN minimum holds per component: one component above the quote's while earlier ones are below it
+			for i := 0; i < 16; i++ {
+				if sq.TeeTcbSvn[i] == 255 {
+					continue
+				}
+				for _, lowerEarlier := range []bool{false, true} {
+					p = goodPolicy()
+					m := append([]byte(nil), sq.TeeTcbSvn...)
+					m[i]++
+					if lowerEarlier {
+						for j := 0; j < i; j++ {
+							if m[j] > 0 {
+								m[j]--
+							}
+						}
+					}
+					p.MinTeeTcbSvn = m
+					add(base, world.LBase, "policy-mismatch", fmt.Sprintf("min-tee-tcb-svn/component-%d-above/earlier-lowered=%v", i, lowerEarlier), p, true, false)
+				}
+			}
 		}
 		// verification faults that only differ from the twin in the OPTIONS (same quote, same chain): time past the chain's expiry, another pool
 		{
